@@ -939,3 +939,109 @@ def impl_c11(case, scratch):
         return res
     finally:
         shutil.rmtree(d, ignore_errors=True)
+
+
+# ---------------------------------------------------------------- C20
+def _c20_make(d, with_backup, with_bootstrap):
+    p = os.path.join(d, "w.db")
+    ctx = Wtp(db_path=p, quiet=True, quiet_output=True)
+    ctx.add_page("Module:ustring:ustring", 828, USTRING_STUB, model="Scribunto")
+    ctx.add_page("Module:echo", 828, ECHO_MODULE, model="Scribunto")
+    for k, v in STD_TEMPLATES.items():
+        ctx.add_page("Template:" + k, 10, v)
+    for i in range(30):
+        ctx.add_page("Page %d" % i, 0, "body %d {{a|%d}}" % (i, i))
+    if with_bootstrap:
+        from wikitextprocessor.luaexec import add_empty_sandbox_lua_module  # noqa
+        try:
+            ctx.add_page("Module:_sandbox_", 828, "return {}", model="Scribunto")
+        except Exception:
+            pass
+    ctx.db_conn.commit()
+    if with_backup:
+        ctx.backup_db()
+        ctx.add_page("Page 0", 0, "post-backup version")
+        ctx.db_conn.commit()
+    ctx.db_conn.close()
+    return p
+
+
+def _c20_pages_table(p):
+    import sqlite3
+    con = sqlite3.connect(p)
+    try:
+        return sorted((t, n, (b or "")[:30]) for t, n, b in con.execute("SELECT title, namespace_id, body FROM pages"))
+    finally:
+        con.close()
+
+
+C20_TEXTS = ["{{a|x}}", "{{#invoke:echo|main|a|b=c}}", "{{b|p|x=q}} {{missing}}", "{{#if:x|y}} {{lc:AB}}", "{{inv|q}}", "{{deep|w}}"]
+
+
+def impl_c20(case, scratch):
+    import shutil
+    import subprocess
+    import sys as _sys
+    d = os.path.join(scratch, "c20_%d_%d" % (os.getpid(), next(_counter)))
+    os.makedirs(d)
+    here = os.path.dirname(os.path.abspath(__file__))
+    try:
+        p = _c20_make(d, case["backup"], case["bootstrap"])
+        # reference: what the database holds for readers (after a restore if a backup is present) and single-process outputs
+        ref_db = os.path.join(d, "ref.db")
+        shutil.copy(p, ref_db)
+        if case["backup"]:
+            shutil.copy(os.path.join(d, "w_backup.db"), os.path.join(d, "ref_backup.db"))
+        rctx = Wtp(db_path=ref_db, quiet=True, quiet_output=True)
+        ref_out = {}
+        for t in C20_TEXTS:
+            rctx.start_page("W")
+            ref_out[t] = rctx.expand(t)
+        rctx.db_conn.commit()
+        rctx.db_conn.close()
+        before = [r for r in _c20_pages_table(ref_db) if r[0] != "Module:_sandbox_"]
+        procs, outs = [], []
+        barrier = os.path.join(d, "go")
+        for w, spec in enumerate(case["workers"]):
+            out = os.path.join(d, "out%d.json" % w)
+            outs.append(out)
+            s = dict(spec, out=out, barrier=barrier, pages=[C20_TEXTS[i % len(C20_TEXTS)] for i in spec["pages"]])
+            if s.get("gate"):
+                s["gate"] = dict(s["gate"], reached=os.path.join(d, "reached%d" % w), release=os.path.join(d, "release%d" % w))
+            procs.append((subprocess.Popen([_sys.executable, os.path.join(here, "worker_child.py"), p, json.dumps(s)],
+                                           stdout=subprocess.PIPE, stderr=subprocess.PIPE, text=True), s))
+        open(barrier, "w").write("go")
+        import time
+        # gated schedule: wait until the gated worker reached its line, let the others finish, then release it
+        gated = [(pr, s) for pr, s in procs if s.get("gate")]
+        if gated:
+            t0 = time.time()
+            while not all(os.path.exists(s["gate"]["reached"]) or pr.poll() is not None for pr, s in gated) and time.time() - t0 < 30:
+                time.sleep(0.01)
+            for pr, s in procs:
+                if not s.get("gate"):
+                    try:
+                        pr.wait(timeout=60)
+                    except subprocess.TimeoutExpired:
+                        pr.kill()
+            for pr, s in gated:
+                open(s["gate"]["release"], "w").write("x")
+        results = []
+        for (pr, s), out in zip(procs, outs):
+            try:
+                pr.wait(timeout=90)
+            except subprocess.TimeoutExpired:
+                pr.kill()
+            if os.path.exists(out):
+                r = json.loads(open(out).read())
+            else:
+                r = {"outs": [], "error": ["no-result", (pr.stderr.read() or "")[-200:], ""], "lines": 0}
+            r["want"] = [ref_out[t] for t in s["pages"]]
+            results.append(r)
+        try:
+            after = [r for r in _c20_pages_table(p) if r[0] != "Module:_sandbox_"]
+        except Exception as e:  # noqa
+            after = ["unreadable: %s" % type(e).__name__]
+        return {"outcome": "ok", "results": results, "before": before, "after": after, "files": sorted(os.listdir(d))}
+    finally:
+        shutil.rmtree(d, ignore_errors=True)
